@@ -108,7 +108,7 @@ theorem C01_json_string_rt_witnesses :
 
 /-- the hypothesis of the partial theorem is satisfiable by a non-trivial string (quotes, backslash, control
 characters, blanks, non-BMP) -/
-example : ∀ c ∈ "hé \"q\" \\ \t\n\r\u0001 x  😀﻿".toList, jsonSafe c = true := by decide +kernel
+example : ∀ c ∈ "hé \"q\" \\ \t\n\r\u0001 x  😀\ufeff".toList, jsonSafe c = true := by decide +kernel
 
 /-! ### non-vacuity and the repaired row 1 -/
 
